@@ -149,6 +149,11 @@ def lessDID (absent : Int) (order : List String) (a b : DidId) : Bool :=
     (one DID per method) every sorted permutation is THE SAME list (`sort_by_method_unique`). -/
 def sortDIDsByMethod (absent : Int) (order : List String) (l : List DidId) : List DidId := sortBy (lessDID absent order) l
 
+/-- `sortDIDDocumentsByMethod`: sort the IDs, then put at position `i` the FIRST document whose ID is the `i`-th sorted ID
+    (a document = its ID and the rest, here a marker) -/
+def sortDocsByMethod (absent : Int) (order : List String) (docs : List (DidId × Nat)) : List (DidId × Nat) :=
+  (sortDIDsByMethod absent order (docs.map (·.1))).filterMap (fun id => docs.find? (fun d => d.1 = id))
+
 /-- the DIDs of a subject in the order `ListDIDs` answers -/
 def didIdOf (r : DidRow) : DidId := { method := r.method.name, str := "did:" ++ r.method.name ++ ":" ++ toString r.id }
 
